@@ -54,7 +54,7 @@ func (u *Unit) symParam(st *State, name string, t types.Type) Val {
 	case KIface:
 		u.assume(Term{"(and (<= 0 (i-tag " + v.S + ")) (<= 0 (i-val " + v.S + ")) (< (i-val " + v.S + ") " + u.nextRef(st).S + "))", sBool})
 	}
-	u.probes = append(u.probes, modelProbe{name, v.S})
+	u.probes = append(u.probes, modelProbe{name, v.S, len(u.items)})
 	return v
 }
 
@@ -142,7 +142,7 @@ func (e *Engine) verifyFunc(key string) (u *Unit, err error) {
 		}
 		for i, r := range res {
 			if t, ok := r.(Term); ok {
-				u.probes = append(u.probes, modelProbe{fmt.Sprintf("result%d", i), t.S})
+				u.probes = append(u.probes, modelProbe{fmt.Sprintf("result%d", i), t.S, len(u.items)})
 			}
 		}
 	}
@@ -239,12 +239,16 @@ func (u *Unit) script(o *Obligation, wantModel bool) string {
 	}
 	sb.WriteString("(assert (not " + o.Goal.S + "))\n")
 	sb.WriteString("(check-sat)\n")
-	if wantModel && len(u.probes) > 0 {
-		sb.WriteString("(get-value (")
+	if wantModel {
+		var ps []string
 		for _, p := range u.probes {
-			sb.WriteString(p.Term + " ")
+			if p.At <= o.NItems {
+				ps = append(ps, p.Term)
+			}
 		}
-		sb.WriteString("))\n")
+		if len(ps) > 0 {
+			sb.WriteString("(get-value (" + strings.Join(ps, " ") + "))\n")
+		}
 	}
 	return sb.String()
 }
